@@ -153,6 +153,18 @@ func init() {
 		if c3, ok := parseViaAsm(a[0], s); !ok || c3.NaN != c.NaN || (!c.NaN && c3.X.Cmp(c.X) != 0) || c3.X.Signbit() != c.X.Signbit() {
 			return "FAIL asm " + s
 		}
+		if a[0] == "ppc_fp128" && len(a[1]) == 32 {
+			// the CLASS of a ppc_fp128 value is the class of its HIGH double (LLVM): an infinite high double is that infinity whatever the low double
+			// holds, a NaN high double is a NaN
+			hb, _ := strconv.ParseUint(a[1][:16], 16, 64)
+			hi := math.Float64frombits(hb)
+			if math.IsInf(hi, 0) && (c.NaN || !c.X.IsInf() || c.X.Signbit() != math.Signbit(hi)) {
+				return "FAIL class " + s + " (an infinite high double is an infinity)"
+			}
+			if math.IsNaN(hi) && !c.NaN {
+				return "FAIL class " + s + " (a NaN high double is a NaN)"
+			}
+		}
 		if a[0] == "ppc_fp128" && len(a[1]) == 32 && !c.NaN {
 			// what is printed is at least the CANONICAL pair of the exact sum of the two doubles (high = the double nearest to the sum, with the sign of the
 			// sum also when it is zero; low = the rest), computed here by an independent route
